@@ -61,9 +61,15 @@ Proofs/CoreLemmas.vos Proofs/CoreLemmas.vok Proofs/CoreLemmas.required_vos: Proo
 Proofs/CoreLife.vo Proofs/CoreLife.glob Proofs/CoreLife.v.beautified Proofs/CoreLife.required_vo: Proofs/CoreLife.v Lib/NumOps.vo Gen/GenProto.vo Model/Core.vo Spec/ProtoSpec.vo Proofs/CoreLemmas.vo Proofs/CoreCons.vo Proofs/CoreOrder.vo
 Proofs/CoreLife.vio: Proofs/CoreLife.v Lib/NumOps.vio Gen/GenProto.vio Model/Core.vio Spec/ProtoSpec.vio Proofs/CoreLemmas.vio Proofs/CoreCons.vio Proofs/CoreOrder.vio
 Proofs/CoreLife.vos Proofs/CoreLife.vok Proofs/CoreLife.required_vos: Proofs/CoreLife.v Lib/NumOps.vos Gen/GenProto.vos Model/Core.vos Spec/ProtoSpec.vos Proofs/CoreLemmas.vos Proofs/CoreCons.vos Proofs/CoreOrder.vos
+Proofs/CoreMeasure.vo Proofs/CoreMeasure.glob Proofs/CoreMeasure.v.beautified Proofs/CoreMeasure.required_vo: Proofs/CoreMeasure.v Lib/NumOps.vo Gen/GenProto.vo Model/Core.vo Spec/ProtoSpec.vo Proofs/CoreLemmas.vo Proofs/CoreCons.vo Proofs/CoreOrder.vo Proofs/CoreLife.vo Proofs/CoreInv.vo Proofs/CoreInit.vo Proofs/CoreProgress.vo
+Proofs/CoreMeasure.vio: Proofs/CoreMeasure.v Lib/NumOps.vio Gen/GenProto.vio Model/Core.vio Spec/ProtoSpec.vio Proofs/CoreLemmas.vio Proofs/CoreCons.vio Proofs/CoreOrder.vio Proofs/CoreLife.vio Proofs/CoreInv.vio Proofs/CoreInit.vio Proofs/CoreProgress.vio
+Proofs/CoreMeasure.vos Proofs/CoreMeasure.vok Proofs/CoreMeasure.required_vos: Proofs/CoreMeasure.v Lib/NumOps.vos Gen/GenProto.vos Model/Core.vos Spec/ProtoSpec.vos Proofs/CoreLemmas.vos Proofs/CoreCons.vos Proofs/CoreOrder.vos Proofs/CoreLife.vos Proofs/CoreInv.vos Proofs/CoreInit.vos Proofs/CoreProgress.vos
 Proofs/CoreOrder.vo Proofs/CoreOrder.glob Proofs/CoreOrder.v.beautified Proofs/CoreOrder.required_vo: Proofs/CoreOrder.v Lib/NumOps.vo Gen/GenProto.vo Model/Core.vo Spec/ProtoSpec.vo Proofs/CoreLemmas.vo Proofs/CoreCons.vo
 Proofs/CoreOrder.vio: Proofs/CoreOrder.v Lib/NumOps.vio Gen/GenProto.vio Model/Core.vio Spec/ProtoSpec.vio Proofs/CoreLemmas.vio Proofs/CoreCons.vio
 Proofs/CoreOrder.vos Proofs/CoreOrder.vok Proofs/CoreOrder.required_vos: Proofs/CoreOrder.v Lib/NumOps.vos Gen/GenProto.vos Model/Core.vos Spec/ProtoSpec.vos Proofs/CoreLemmas.vos Proofs/CoreCons.vos
+Proofs/CoreProgress.vo Proofs/CoreProgress.glob Proofs/CoreProgress.v.beautified Proofs/CoreProgress.required_vo: Proofs/CoreProgress.v Lib/NumOps.vo Gen/GenProto.vo Model/Core.vo Spec/ProtoSpec.vo Proofs/CoreLemmas.vo Proofs/CoreCons.vo Proofs/CoreOrder.vo Proofs/CoreLife.vo Proofs/CoreInv.vo
+Proofs/CoreProgress.vio: Proofs/CoreProgress.v Lib/NumOps.vio Gen/GenProto.vio Model/Core.vio Spec/ProtoSpec.vio Proofs/CoreLemmas.vio Proofs/CoreCons.vio Proofs/CoreOrder.vio Proofs/CoreLife.vio Proofs/CoreInv.vio
+Proofs/CoreProgress.vos Proofs/CoreProgress.vok Proofs/CoreProgress.required_vos: Proofs/CoreProgress.v Lib/NumOps.vos Gen/GenProto.vos Model/Core.vos Spec/ProtoSpec.vos Proofs/CoreLemmas.vos Proofs/CoreCons.vos Proofs/CoreOrder.vos Proofs/CoreLife.vos Proofs/CoreInv.vos
 Proofs/CoreResult.vo Proofs/CoreResult.glob Proofs/CoreResult.v.beautified Proofs/CoreResult.required_vo: Proofs/CoreResult.v Lib/NumOps.vo Gen/GenProto.vo Model/Core.vo Spec/ProtoSpec.vo Proofs/CoreCons.vo
 Proofs/CoreResult.vio: Proofs/CoreResult.v Lib/NumOps.vio Gen/GenProto.vio Model/Core.vio Spec/ProtoSpec.vio Proofs/CoreCons.vio
 Proofs/CoreResult.vos Proofs/CoreResult.vok Proofs/CoreResult.required_vos: Proofs/CoreResult.v Lib/NumOps.vos Gen/GenProto.vos Model/Core.vos Spec/ProtoSpec.vos Proofs/CoreCons.vos
@@ -85,6 +91,9 @@ Props/C01.vos Props/C01.vok Props/C01.required_vos: Props/C01.v Lib/NumOps.vos G
 Props/C02.vo Props/C02.glob Props/C02.v.beautified Props/C02.required_vo: Props/C02.v Lib/NumOps.vo Gen/GenProto.vo Model/Core.vo Spec/ProtoSpec.vo Proofs/CoreCons.vo Proofs/CoreResult.vo
 Props/C02.vio: Props/C02.v Lib/NumOps.vio Gen/GenProto.vio Model/Core.vio Spec/ProtoSpec.vio Proofs/CoreCons.vio Proofs/CoreResult.vio
 Props/C02.vos Props/C02.vok Props/C02.required_vos: Props/C02.v Lib/NumOps.vos Gen/GenProto.vos Model/Core.vos Spec/ProtoSpec.vos Proofs/CoreCons.vos Proofs/CoreResult.vos
+Props/C03.vo Props/C03.glob Props/C03.v.beautified Props/C03.required_vo: Props/C03.v Lib/NumOps.vo Gen/GenProto.vo Model/Core.vo Spec/ProtoSpec.vo Proofs/CoreInv.vo Proofs/CoreInit.vo Proofs/CoreProgress.vo Proofs/CoreMeasure.vo
+Props/C03.vio: Props/C03.v Lib/NumOps.vio Gen/GenProto.vio Model/Core.vio Spec/ProtoSpec.vio Proofs/CoreInv.vio Proofs/CoreInit.vio Proofs/CoreProgress.vio Proofs/CoreMeasure.vio
+Props/C03.vos Props/C03.vok Props/C03.required_vos: Props/C03.v Lib/NumOps.vos Gen/GenProto.vos Model/Core.vos Spec/ProtoSpec.vos Proofs/CoreInv.vos Proofs/CoreInit.vos Proofs/CoreProgress.vos Proofs/CoreMeasure.vos
 Props/C06.vo Props/C06.glob Props/C06.v.beautified Props/C06.required_vo: Props/C06.v Gen/GenStruct.vo Gen/GenParams.vo Model/OrderHist.vo Model/Hist.vo Proofs/HistProofs.vo
 Props/C06.vio: Props/C06.v Gen/GenStruct.vio Gen/GenParams.vio Model/OrderHist.vio Model/Hist.vio Proofs/HistProofs.vio
 Props/C06.vos Props/C06.vok Props/C06.required_vos: Props/C06.v Gen/GenStruct.vos Gen/GenParams.vos Model/OrderHist.vos Model/Hist.vos Proofs/HistProofs.vos
